@@ -62,7 +62,7 @@ static void steps_of(int s, std::vector<Step>& out) {
     for (int o : POOLO) {
       Ctx cx{st.dim, st.cls, ST[o].cls, ST[o].dim};
       if (!op.ok(cx)) continue;
-      if (op.args.fam == "simplify" && ++taken > 40) break;     // first 40 operands of the pool (BFS order)
+      if (op.args.fam == "simplify" && ++taken > (CFG.thorough ? 40 : 10)) break;     // first 10 / 40 operands of the pool (BFS order): most calls crash for octagons
       out.push_back(Step{'o', (int)oi, o});
     }
   }
